@@ -26,7 +26,7 @@ ASSUMPTIONS = ["no module global is rebound after import (a from-import captures
                "qualified reference reads the current one; rebinding makes the two forms differ by design)",
                "modules have no import-time output, so reordering imports cannot change printed output by itself",
                "programs are in fragment F"]
-BUDGET = {"quick": (600, 200), "thorough": (30000, 480)}
+BUDGET = {"quick": (600, 240), "thorough": (5800, 900)}
 EXHAUSTIVE = {}
 CASE_TIMEOUT = 600
 REQUIRE = {"performed_and_run": 200, "idempotence_checked": 200}
